@@ -918,26 +918,22 @@ func (it *strIter) next(ex *Exec) tuple {
 		it.i++
 		return tuple{true, I(uint64(start)), I(uint64(c))}
 	}
-	if t, ok := b0.(*Term); ok {
-		tc := ex.tc
-		if ex.branchT(tc.BVCmp(OpBVUlt, t, tc.BV(0x80, 8))) {
-			it.i++
-			return tuple{true, I(uint64(start)), fromTerm(tc.ZeroExt(t, 32))}
-		}
-		panic(unsupported("range over string with symbolic non-ASCII byte"))
+	// symbolic bytes involved: exact term-level decode, the (symbolic) size is
+	// concretised by forking (at most 4 ways)
+	end := it.i + 4
+	if end > len(it.b) {
+		end = len(it.b)
 	}
-	// concrete multi-byte: need following bytes concrete
-	var buf []byte
-	for j := it.i; j < len(it.b) && j < it.i+4; j++ {
-		c, ok := it.b[j].(I)
-		if !ok {
-			panic(unsupported("range over string: symbolic continuation byte"))
-		}
-		buf = append(buf, byte(c))
+	r, sz := ex.decodeRuneModel(it.b[it.i:end])
+	n := int(ex.concreteInt(sz, "range over string: rune size"))
+	if n < 1 {
+		n = 1
 	}
-	r, size := utf8.DecodeRune(buf)
-	it.i += size
-	return tuple{true, I(uint64(start)), I(uint64(uint32(r)))}
+	it.i += n
+	if rr, ok := r.(*Term); ok {
+		r = ex.resolve(rr)
+	}
+	return tuple{true, I(uint64(start)), r}
 }
 
 func (ex *Exec) rangeIter(x value, t types.Type) iter {
